@@ -33,7 +33,7 @@ def prop(pid, level, rule, stages_quick, stages_thorough, assumptions=None, exha
 prop(
     "C01",
     "exploration",
-    "cases = (voice: bundled | PDF-perturbed copy | generated voice over the full {2,3 streams}x{stage 0..3}x{1..7 states}x{4 window sets} grid | random generated) x (utterance: corpus window / shuffle / field-recombination / breath group; structurally random labels for the no-panic part) x (random point or corner of the condition envelope, incl. alignment with random time annotations); "
+    "cases = (voice: bundled | PDF-perturbed copy | generated voice over the full {2,3 streams}x{stage 0..3}x{1..7 states}x{4 window sets} grid | random generated) x (utterance: corpus window / shuffle / field-recombination / breath group; structurally random labels for the no-panic part) x (random point or corner of the condition envelope, incl. alignment with random time annotations, whose frame counts are checked against the exact-integer alignment law on the annotation itself); "
     "non-trivial = at least one voiced frame and more frames than states; distinct by hash(voice description, condition, label text)",
     [st("checked", death_is_violation=True)],
     [st("checked", death_is_violation=True), st("release", death_is_violation=True), st("asan", name="asan", args=["--sub", "synthetic", "--scale", "0.03"], env=ASAN_ENV, canary="asan", death_is_violation=True)],
@@ -45,7 +45,7 @@ VOC_ASSUME = ["pulse response measured in periodic steady state (F0 = 20 Hz, fra
 prop(
     "C06",
     "exploration",
-    "cases = random mel-cepstra (4 decay profiles, order 2..40, scaled to a spectral-shape magnitude in (0,2] nepers) x alpha in {0, 1e-6, 1e-3 .. 9.9e-3, 0.6} U [0,0.6] x sampling rates (6 common ones and random multiples of 20 in 8k..96k); gain corners c0 = 0 and b0 = c0 - alpha b1 = 0 exactly; gain c0 in [-20,12] in a third of the cases; measured on 65 or 257 harmonics in steady state AND on the response to the very first pulse (first frame); plus the exp(c0) gain law over steps of up to +-12 nepers; non-trivial = shape >= 0.5 neper and order >= 3; distinct by (order, alpha bucket, rate)",
+    "cases = random mel-cepstra (4 decay profiles, order 2..40, scaled to a spectral-shape magnitude in (0,2] nepers) x alpha in {0, 1e-6, 1e-3 .. 9.9e-3, 0.6} U [0,0.6] x sampling rates (6 common ones and random multiples of 20 in 8k..96k); gain corners c0 = 0 and b0 = c0 - alpha b1 = 0 exactly; gain c0 in [-20,12] in a third of the cases; one case in sixteen a long tail of tiny same-sign terms (0.0004..0.0017 each, order 30..41) alone or under one dominant first-order term; measured on 65 or 257 harmonics in steady state AND on the response to the very first pulse (first frame); plus the exp(c0) gain law over steps of up to +-12 nepers; non-trivial = shape >= 0.5 neper and order >= 3; distinct by (order, alpha bucket, rate)",
     [st("checked")],
     [st("checked"), st("release")],
     VOC_ASSUME,
@@ -53,7 +53,7 @@ prop(
 prop(
     "C13",
     "exploration",
-    "cases = random increasing LSP sets (order 2..24, every gap incl. to 0 and pi >= 1.001*pi/(4(m+1)), clustered and spread) x stage 1..4 x alpha x linear/log gain x 6 rates, compared with K/|A(e^{j w~})|^s built by polynomial multiplication, on harmonics within 100 dB of the peak, in steady state and on the first-frame response; plus one fixed listed extreme set; non-trivial = model dynamic range >= 1 neper; distinct by (order, stage, alpha bucket, gain kind, rate)",
+    "cases = random increasing LSP sets (order 2..24, every gap incl. to 0 and pi >= 1.001*pi/(4(m+1)), clustered and spread) x stage 1..4 x alpha x linear/log gain x 6 rates, compared with K/|A(e^{j w~})|^s built by polynomial multiplication, on harmonics within 100 dB of the peak, in steady state and on the first-frame response; almost equally spaced sets (perturbation 3e-5..1e-3 rad); gains down to e^-28 in both conventions; plus one fixed listed extreme set; non-trivial = model dynamic range >= 1 neper; distinct by (order, stage, alpha bucket, gain kind, rate)",
     [st("checked")],
     [st("checked"), st("release")],
     VOC_ASSUME + ["diverging responses are classified by the model's dynamic range per cascaded section (beyond 28 nepers they carry the listed known-finding signature)"],
@@ -61,7 +61,7 @@ prop(
 prop(
     "C14",
     "exploration",
-    "cases = cepstra as C06 x beta in (0,0.5] x alpha x rates, order 3..40 (+ order 2 no-op, beta=0 identity); the measured log spectrum with beta must equal sum_{m>=1} c'_m cos(m w~) + const with c'_1=c_1, c'_m=(1+beta)c_m, the least-squares recovered cepstrum must agree, and the response energy must stay within 1 % when >= 99.99 % of it lies in 576 taps; non-trivial = energy law checked and the postfilter changed the response by > 1e-3; distinct by (order, alpha, beta bucket, rate)",
+    "cases = cepstra as C06 x beta in (0,0.5] x alpha x rates, order 3..40 (+ order 2 no-op, beta=0 identity); the measured log spectrum with beta must equal sum_{m>=1} c'_m cos(m w~) + const with c'_1=c_1, c'_m=(1+beta)c_m, the least-squares recovered cepstrum must agree, and the response energy must stay within 1 % when >= 99.99 % of it lies in 576 taps; with a constant spectrum and random V/UV switches the output stays that of one LTI filter; on a spectrum that moves every frame Vocoder(beta) on c_t equals Vocoder(0) on the postfiltered cepstrum computed from the definition (<= 1e-5 of the peak); non-trivial = energy law checked and the postfilter changed the response by > 1e-3; distinct by (order, alpha, beta bucket, rate)",
     [st("checked")],
     [st("checked"), st("release")],
     VOC_ASSUME,
@@ -79,14 +79,14 @@ prop(
 prop(
     "C05",
     "exploration",
-    "cases = random streams (1..60 states, durations 1..8, vector length 1..4, variances in [0.05,3], 6 voicing-pattern classes incl. all-unvoiced and 1-2 frame islands at the edges, 9 window sets incl. width-5, zero-centre and zero-ended rows, widest window not last) through the public MlpgAdjust with gv=None; every voiced island x vector index is checked against the dense normal equations of the definition (relative residual <= 1e-10 and agreement with Gaussian elimination <= 1e-8); non-trivial = island of >= 3 frames with >= 1 active dynamic row; distinct by (window set, pattern class, vector length, island-length profile)",
+    "cases = random streams (1..60 states, durations 1..8, vector length 1..4, variances in [0.05,3], 6 voicing-pattern classes incl. all-unvoiced and 1-2 frame islands at the edges, 10 window sets incl. width-5, zero-centre and zero-ended rows, widest window not last; one case in eight with the static window zero-padded to width 3 or 5) through the public MlpgAdjust with gv=None; every voiced island x vector index is checked against the dense normal equations of the definition (relative residual <= 1e-10 and agreement with Gaussian elimination <= 1e-8); non-trivial = island of >= 3 frames with >= 1 active dynamic row; distinct by (window set, pattern class, vector length, island-length profile)",
     [st("checked")],
     [st("checked"), st("release")],
 )
 prop(
     "C07",
     "exploration",
-    "runs through the public Vocoder with an all-zero spectrum (identity filter): constant F0 (20 Hz..rate/2, integer and fractional periods), F0 limits, unvoiced noise statistics (mean, variance, lag-1 correlation; deterministic generator), random F0 walks with V/UV switches (pulse height and gap laws of a linear period glide), mixed excitation with random odd low-pass rows 1..31 reconstructed from the separately observed pulse train and noise sequence; 6 rates, frame periods 40..480; non-trivial = >= 10 pulses measured or >= 1 V/UV switch with a low-pass row",
+    "runs through the public Vocoder with an all-zero spectrum (identity filter): constant F0 (20 Hz..rate/2, integer and fractional periods), F0 limits, unvoiced noise statistics (mean, variance, lag-1 correlation; deterministic generator), random F0 walks with V/UV switches (pulse height and gap laws of a linear period glide), a creep of 1e-9..3e-7 per frame over 1500..12000 frames followed by a held value (pulse height, gaps and average period of the held stretch), mixed excitation with random odd low-pass rows 1..31 reconstructed from the separately observed pulse train and noise sequence; 6 rates, frame periods 40..480; non-trivial = >= 10 pulses measured or >= 1 V/UV switch with a low-pass row",
     [st("checked")],
     [st("checked"), st("release")],
 )
@@ -102,7 +102,7 @@ prop(
 prop(
     "C04",
     "exploration",
-    "voices = the bundled voice (every corpus line in the thorough tier, a slice in quick, plus field-recombined labels) and generated voices over {1..7 states, 2/3 streams, vector lengths, 9 window sets, trees in ascending or descending state order, -0.0 means, ALPHA also outside [0,1], tree depth 0..4 incl. single-leaf trees, quoted/unquoted/mixed leaf names, questions sampled from the bundled voice's 783 questions incl. the 3 regex-fallback ones forced at the root}; for every (label, state, model in duration/streams/GV) the Gaussians returned by the public Model API must be bit-equal to the float32 entries selected by the independent reader's tree walk with the wildcard matcher; header fields, options, window coefficients and engine defaults compared exactly; non-trivial = a lookup that traverses >= 2 internal nodes with >= 1 'yes'; distinct by (voice, model, tree, leaf)",
+    "voices = the bundled voice (every corpus line in the thorough tier, a slice in quick, plus field-recombined labels) and generated voices over {1..7 states, 2/3 streams, vector lengths, 9 window sets, trees in ascending or descending state order, -0.0 means, ALPHA also outside [0,1], tree depth 0..4 incl. single-leaf trees (which may name any PDF of a table that holds more PDFs than the tree uses), 10 window sets also with zero-padded static windows, GAMMA / LN_GAIN spelled out or left out for the mel-cepstral filter in every option order, quoted/unquoted/mixed leaf names, questions sampled from the bundled voice's 783 questions incl. the 3 regex-fallback ones forced at the root}; for every (label, state, model in duration/streams/GV) the Gaussians returned by the public Model API must be bit-equal to the float32 entries selected by the independent reader's tree walk with the wildcard matcher; header fields, options, window coefficients and engine defaults compared exactly; non-trivial = a lookup that traverses >= 2 internal nodes with >= 1 'yes'; distinct by (voice, model, tree, leaf)",
     [st("checked")],
     [st("checked"), st("asan", name="asan", args=["--sub", "synthetic", "--scale", "0.25"], env=ASAN_ENV, canary="asan", death_is_violation=True)],
     ["gamma stage and log-gain flag of the engine are read from Condition's Debug output (no public getter)", "generator ground truth and independent reader are cross-checked for every generated voice"],
@@ -119,7 +119,7 @@ prop(
 prop(
     "C10",
     "exploration",
-    "voice sets of 1..4: bundled + PDF-perturbed copies, identical copies, generated voices with equal metadata but different trees; dyadic weight vectors (k/64, exact sum 1) on the simplex, vertices, and with negative / over-unity components, set independently for duration, each stream and each GV; every duration / stream / GV Gaussian from the public Models API compared with the weighted average of the per-voice Gaussians within 8 eps * sum|terms|; vertex weights: parameters and waveform bit-equal to the first voice; non-trivial = >= 2 voices whose selected Gaussians differ and a non-vertex weight",
+    "voice sets of 1..4: bundled + PDF-perturbed copies, identical copies, generated voices with equal metadata but different trees; dyadic weight vectors (k/64, exact sum 1) on the simplex, vertices, and with negative / over-unity components, set independently for duration, each stream and each GV; every duration / stream / GV Gaussian from the public Models API compared with the weighted average of the per-voice Gaussians within 8 eps * sum|terms|; vertex weights: parameters and waveform bit-equal to the first voice; interior weights end to end: the engine's hooked trajectories equal the public building blocks run on the weighted model (<= 1e-9); each generated voice of a set lists its trees in its own order; non-trivial = >= 2 voices whose selected Gaussians differ and a non-vertex weight",
     [st("checked")],
     [st("checked"), st("release")],
 )
@@ -133,7 +133,7 @@ prop(
 prop(
     "C12",
     "exploration",
-    "utterances of 10..60 corpus labels (consecutive / shuffled) on the bundled voice and perturbed copies x GV weights {0.25,0.5,1,2} + one random weight, both GV streams; eligibility computed with the harness' wildcard matcher on the file's GV_OFF_CONTEXT; variance ratio in [0.8,1.2] per coefficient when >= 100 frames are eligible, strictly increasing over the weight grid; silence-only utterances: trajectory equals the gv=None solution; stream without GV bit-equal for any GV weight, also for copies of the bundled voice whose header switches USE_GV off while the GV data is still in the file; non-trivial = >= 100 eligible frames in a GV stream",
+    "utterances of 10..60 corpus labels (consecutive / shuffled) on the bundled voice and perturbed copies x GV weights {0.25,0.5,1,2} + one random weight, both GV streams; eligibility computed with the harness' wildcard matcher on the file's GV_OFF_CONTEXT; variance ratio in [0.8,1.2] per coefficient when >= 100 frames are eligible, strictly increasing over the weight grid; two and three voices with scaled GV means and convex, zero-containing and extrapolating GV interpolation weights; silence-only utterances: trajectory equals the gv=None solution; stream without GV bit-equal for any GV weight, also for copies of the bundled voice whose header switches USE_GV off while the GV data is still in the file; non-trivial = >= 100 eligible frames in a GV stream",
     [st("checked")],
     [st("checked"), st("release")],
 )
@@ -148,7 +148,7 @@ prop(
 prop(
     "C16",
     "exploration",
-    "v in [-60,60] dB (0, +-6.0206, corners, random) x random conditions x utterances on bundled and generated voices (both filter families, 2 and 3 streams): every sample at v dB equals 10^(v/20) times the 0 dB sample within 32 eps, equal length, no other setting changes, get_volume returns v within 1e-12; non-trivial = v != 0 and a non-silent waveform",
+    "v in [-60,60] dB (0, +-6.0206, corners, random) x random conditions x utterances on bundled and generated voices (both filter families, 2 and 3 streams): every sample at v dB equals 10^(v/20) times the 0 dB sample within 32 eps, equal length, no other setting changes, get_volume returns v within 1e-12; for v != 0 the same law on the waveform pulled from generator() all at once, frame by frame, or a few frames and then the rest; non-trivial = v != 0 and a non-silent waveform",
     [st("checked")],
     [st("checked"), st("release")],
     ["samples that are non-finite at 0 dB (outside the stable range, see C01) are not compared"],
@@ -156,14 +156,14 @@ prop(
 prop(
     "C17",
     "exploration",
-    "forms: &[&str], &[String], Vec<String>, &[String; N] (N in 1..8), with blank lines, with 100 ns time stamps and float-spelled times (1e400, inf, NaN, -1) while alignment is off, also blank-line-first + stamped and alternating stamped/plain lines, all compared bit-for-bit with the parsed-label form; time-stamped strings with alignment ON and frame periods that do not divide the rate, judged by C09's exact alignment law; corruptions of corpus lines (14 kinds: chunk deletion/duplication, symbol substitution, unicode insertion, truncation, extra spaces, one time only, two times without label, unparsable times, trailing token, 10k characters, random ASCII, long multi-byte text with 0/1/2 spaces and ASCII prefixes of every length) must give Ok or Err, never a panic; non-trivial = form comparison done / corruption rejected by jlabel's parser",
+    "forms: &[&str], &[String], Vec<String>, &[String; N] (N in 1..8), with blank lines, with 100 ns time stamps and float-spelled times (1e400, inf, NaN, -1) while alignment is off, also blank-line-first + stamped and alternating stamped/plain lines, all compared bit-for-bit with the parsed-label form; time-stamped strings with alignment ON and frame periods that do not divide the rate, judged by C09's exact alignment law; corruptions of corpus lines (21 kinds, incl. trailing whitespace, a byte order mark in front of an entry and line terminators inside an entry: chunk deletion/duplication, symbol substitution, unicode insertion, truncation, extra spaces, one time only, two times without label, unparsable times, trailing token, 10k characters, random ASCII, long multi-byte text with 0/1/2 spaces and ASCII prefixes of every length) must give Ok or Err, never a panic; non-trivial = form comparison done / corruption rejected by jlabel's parser",
     [st("checked", death_is_violation=True)],
     [st("checked", death_is_violation=True), st("asan", name="asan", args=["--sub", "corruptions", "--scale", "0.1"], env=ASAN_ENV, canary="asan", death_is_violation=True)],
 )
 prop(
     "C19",
     "exploration",
-    "metadata: 15 single-field mutations (rate, frame period, states, streams, stream type, format/version strings, GV-off context, vector length, window count, MSD flag, GV flag, option, last stream only) x 6 list shapes (pairs and triples with the odd one in every position, quadruple) on in-memory copies of the bundled and generated voices - enumerated; empty list; differing stream count. Weights: every history up to length 3 over a 7-update alphabet (valid, wrong length, bad sum, NaN, negative) on a 2-voice engine - enumerated; random histories of 1..12 updates on 2..4-voice engines against a reference state machine (getter and next waveform after every update, final comparison with a fresh engine given the effective weights); non-trivial = history with >= 1 accepted and >= 1 rejected update, or a metadata case",
+    "metadata: 15 single-field mutations (rate, frame period, states, streams, stream type, format/version strings, GV-off context, vector length, window count, MSD flag, GV flag, option, last stream only) x 6 list shapes (pairs and triples with the odd one in every position, quadruple) on in-memory copies of the bundled and generated voices - enumerated; empty list; differing stream count. Weights: every history up to length 3 over a 7-update alphabet (valid, wrong length, bad sum, NaN, negative) on a 2-voice engine - enumerated; random histories of 1..12 updates on 1..4-voice engines against a reference state machine (getter and next waveform after every update, final comparison with a fresh engine given the effective weights); non-trivial = history with >= 1 accepted and >= 1 rejected update, or a metadata case",
     [st("checked")],
     [st("checked"), st("release")],
     ["sums with 0 < |sum-1| < 1e-6 may be accepted or rejected; the model follows the reported outcome"],
@@ -180,7 +180,7 @@ prop(
 prop(
     "C18",
     "fault_enumeration",
-    "single faults enumerated per valid file: truncation at every header/data section boundary +-{0,1,2} and at random offsets; every decimal number of the header replaced by {0,1,v+1,v-1,99999999999,2^64,2^128,-5,abc,empty}; range endpoints swapped; every header line deleted / duplicated; keys renamed, colon removed, value emptied; section tags damaged; every header quote removed / replaced, a quote inserted before every key and value; odd and non-UTF-8 bytes in the header; tree bodies blanked in place; byte substitutions in the data part; 37 structural faults of every tree/question text section and 7 of every window section of generated voices (unknown question, deleted/renamed QS, child redirected to a missing node, duplicate node id, leaf without / with zero / huge / overflowing number, missing braces, bad state index, re-quoting, bad pattern characters, empty pattern list, swapped / extra / missing tokens, non-UTF-8, NUL, CRLF, single-node tree pointing at a node, empty section); sampled double faults; random garbage. Files: generated voices (all faults) and the bundled voice (thinned in the quick tier). Observed per fault: Ok / Err class / panic site, peak heap and largest request from a counting allocator, process death. non-trivial = outcome differs from the clean file; distinct by (fault class, section, outcome)",
+    "single faults enumerated per valid file: truncation at every header/data section boundary +-{0,1,2} and at random offsets; every decimal number of the header replaced by {0,1,v+1,v-1,99999999999,2^64,2^128,-5,abc,empty}; range endpoints swapped; every header line deleted / duplicated; keys renamed, colon removed, value emptied; section tags damaged; every header quote removed / replaced, a quote inserted before every key and value; odd and non-UTF-8 bytes in the header; tree bodies blanked in place; byte substitutions in the data part; 37 structural faults of every tree/question text section and 7 of every window section of generated voices (unknown question, deleted/renamed QS, child redirected to a missing node or back to the root, duplicate node id, node numbered far away (-2e7..-9e18), leaf without / with zero / huge / overflowing number, missing braces, bad state index, re-quoting, bad pattern characters, empty pattern list, swapped / extra / missing tokens, non-UTF-8, NUL, CRLF, single-node tree pointing at a node, empty section); sampled double faults; random garbage. Files: generated voices (all faults) and the bundled voice (thinned in the quick tier). Observed per fault: Ok / Err class / panic site, peak heap and largest request from a counting allocator, process death. non-trivial = outcome differs from the clean file; distinct by (fault class, section, outcome)",
     [st("checked", death_is_violation=True, env={"JBV_WATCHDOG_S": "20"})],
     [st("checked", death_is_violation=True, env={"JBV_WATCHDOG_S": "20"}), st("release", death_is_violation=True, env={"JBV_WATCHDOG_S": "20"}), st("asan", name="asan", args=["--sub", "generated", "--scale", "0.1"], env=dict(ASAN_ENV, JBV_NO_RLIMIT="1"), canary="asan", death_is_violation=True),
      st("miri", name="miri", args=[], env={"MIRIFLAGS": "-Zmiri-disable-isolation -Zmiri-deterministic-floats", "JBV_MIRI": "1", "JBV_WATCHDOG_S": "7200"}, canary="miri", death_is_violation=True, shards=8, timeout_s=3 * 3600),
